@@ -47,8 +47,9 @@ def interpose(coro: Coroutine[Any, Any, Any], on_yield: Callable[[int, Any], Non
 class Injector:
     """Cancel the victim at suspension point `target` (None = only count)."""
 
-    def __init__(self, target: int | None, after_idles: int = 0) -> None:
+    def __init__(self, target: int | None, after_idles: int = 0, after_turns: int = 0) -> None:
         self.target = target
+        self.after_turns = after_turns  # m>0: the request is made m loop iterations after the moment selected by `after_idles` (while still suspended there)
         self.after_idles = after_idles  # 0: cancel the moment the victim suspends at `target`; j>0: at the j-th loop idle while it is still suspended there
         self.at_point: int | None = None
         self.armed = False
@@ -67,7 +68,21 @@ class Injector:
             if self.after_idles > 0:
                 self.armed, self.idles_left = True, self.after_idles
                 return
+            if self.after_turns > 0:
+                self._count_turns(self.after_turns)
+                return
             self._fire()
+
+    def _count_turns(self, left: int) -> None:
+        """a chain of call_soon callbacks: every link runs one loop iteration after the previous one; what was released / completed
+        meanwhile propagates through the loop's ready queue while the victim is still suspended (or just about to be woken up)"""
+        assert self.task is not None
+        if self.at_point != self.target or self.task.done() or self.fired:
+            return  # the victim moved on
+        if left <= 0:
+            self._fire()
+            return
+        self.task.get_loop().call_soon(self._count_turns, left - 1)
 
     def _fire(self) -> None:
         self.fired = True
@@ -86,6 +101,11 @@ class Injector:
             return False
         self.idles_left -= 1
         if self.idles_left > 0:
+            return False
+        if self.after_turns > 0:
+            # this idle releases whatever it releases; the request follows `after_turns` loop iterations later
+            self.armed = False
+            self._count_turns(self.after_turns)
             return False
         self._fire()
         return True
